@@ -82,6 +82,10 @@ func Str(t *rapid.T) string {
 
 func TimeVal(t *rapid.T, zones bool) model.TimeV {
 	u := pick(t, "unix", []int64{0, 1, 86400, 1577934245, 1600000000, 2147483648, 946684799, 4102444799})
+	if rapid.IntRange(0, 7).Draw(t, "far") == 0 {
+		// centuries apart: years 2, 1600, 2400, 9999 (one year inside the four-digit range, so that no zone offset leaves it)
+		u = pick(t, "farunix", []int64{-62104060800, -11676096000, 13569465600, 253370764800})
+	}
 	if rapid.IntRange(0, 3).Draw(t, "tadj") == 0 {
 		u += int64(rapid.IntRange(-3, 3).Draw(t, "dt"))
 	}
